@@ -226,6 +226,11 @@ def run_case(rng, idx, tier, lane, ctx):
     except CostCap:
         return {"status": "inconclusive", "reason": "cost-call-cap (acceptance rate too low for the logical budget)", "counters": counters, "sample": sample}
     except Exception as e:
+        if type(e).__name__ == "IntegrationError":
+            # explicit refusal: a sampled particle (typically an inferred initial value or a birth/death rate of a model whose population
+            # size is itself a state) drives the ODE into a singularity and the integrator wrapper says so; no population is returned
+            return {"status": "inconclusive", "reason": "IntegrationError at a sampled particle (explicit refusal, no posterior sample returned)",
+                    "counters": counters, "sample": sample}
         return {"status": "violated", "sample": sample, "counters": counters, "classes": cls,
                 "witnesses": [{"what": "ABC run raised", "mode": mode, "error": short_exc(e), "tb": tb_tail(e)}]}
     sample["mode"] = mode
